@@ -28,6 +28,18 @@ theorem construct_ok (e : Engine α) (hwf : WF e) (hac : Acyclic e) : ∃ g, con
 
 example : ∃ g, construct demo = .ok g := construct_ok demo demo_wf demo_acyclic
 
+/-- The error branches: `Construct` raises `KeyError` only for a fed-back name that is not a
+    node of `_flat`, and the only other failure is an `_ancestry` loop that does not finish
+    (which `construct_ok` excludes for acyclic engines). -/
+theorem construct_error_branches (e : Engine α) (err : Err α) (h : construct e = .error err) :
+    (∃ k n, err = .keyError n ∧ k ∈ (buildFlat e).tbl.keys ∧ n ∈ e.feedbackOf k ∧
+      n ∉ (buildFlat e).tbl.keys) ∨
+    (∃ st k, err = .diverges k ∧ feedbackPass e (buildFlat e).tbl.keys = .ok st ∧
+      ancestryOf (mkGraph (buildFlat e) st).parents (mkGraph (buildFlat e) st).keys k = none) :=
+  construct_error h
+
+example : construct bad = .error (.keyError [0, 1, 0, 7]) := rfl
+
 /-- Exactly one algorithm-level node per algorithm: the tags of `at` are a permutation of the
     algorithms' names (which are distinct). -/
 theorem at_nodes (e : Engine α) (g : Graph α) (hwf : WF e) (hac : Acyclic e)
